@@ -27,6 +27,45 @@ type scenario struct {
 	Token  string   `json:"token"`          // starting page token exactly as sent ("" = first page)
 	Mask   []string `json:"mask,omitempty"` // read_mask paths sent with every call (nil = no read mask)
 	Class  string   `json:"class"`          // generator class, for distributions only
+	// Ops run, in order, after IDs were created and Delete deleted: the model's own creation / update /
+	// deletion APIs, so that the collection paged over is one the public API produced.
+	Ops []storeOp `json:"ops,omitempty"`
+	// Warm are List calls made on the same model before the monitored chain (any size, token, mask).
+	Warm []warmCall `json:"warm,omitempty"`
+	// Passes is the number of complete paging passes over the same model (0 means 1).
+	Passes int `json:"passes,omitempty"`
+}
+
+// storeOp is one call of a creation / update / deletion API of the model.
+type storeOp struct {
+	Kind string `json:"kind"`           // add | ensure | update | delete
+	ID   string `json:"id"`             // add: "" = the model invents the id
+	Alt  bool   `json:"alt,omitempty"` // ensure: through AddChildTrait instead of AddChild; update: the written message does not carry the id
+}
+
+type warmCall struct {
+	Size  int32    `json:"size"`
+	Token string   `json:"token"`
+	Mask  []string `json:"mask,omitempty"`
+}
+
+// outcome of a scenario on the real code
+type runResult struct {
+	passes    [][]call
+	warm      []call
+	full      []string // the model's unpaged listing before any List call
+	fullAfter []string // and after the last one
+	base      []string // ids present before Ops (insertion order)
+	coll      []string // ids present while paging according to the harness's own set oracle (insertion order)
+	ops       []string // canonical outcome of each op
+	gen       []string // add ops: the id the code reported
+}
+
+func hexID(s string) string {
+	if s == "" {
+		return "-"
+	}
+	return hexs(s)
 }
 
 // call is one List call of a scenario.
@@ -38,6 +77,7 @@ type call struct {
 	Panic   string
 	Resp    pageResp
 	Hostile bool // the token was not minted by the previous call (first call with a non-empty Token)
+	Mask    []string
 }
 
 func hexs(s string) string { return hex.EncodeToString([]byte(s)) }
@@ -131,6 +171,8 @@ func canon(variant string, idx map[string]int, p pageResp) string {
 			if variant == "waste" {
 				if j, ok := idx[k]; ok {
 					xs[i] = strconv.Itoa(j)
+				} else if k == "" {
+					xs[i] = "_" // the read mask hides the id
 				} else {
 					xs[i] = "?" + hexs(k)
 				}
@@ -152,16 +194,16 @@ func maskHas(mask []string, path string) bool {
 	return false
 }
 
-// keyVisible: does the read mask leave the key field in the returned items? (waste ignores read masks)
+// keyVisible: does the read mask leave the key field in the returned items?
 func (sc scenario) keyVisible() bool {
 	r, _ := rpcByName(sc.RPC)
-	return sc.Mask == nil || r.Variant == "waste" || maskHas(sc.Mask, r.Key)
+	return sc.Mask == nil || maskHas(sc.Mask, r.Key)
 }
 
 // witVisible: is the witness field (set to the item's id by the harness) in the returned items?
 func (sc scenario) witVisible() bool {
 	r, _ := rpcByName(sc.RPC)
-	return r.Wit != "" && (sc.Mask == nil || r.Variant == "waste" || maskHas(sc.Mask, r.Wit))
+	return r.Wit != "" && (sc.Mask == nil || maskHas(sc.Mask, r.Wit))
 }
 
 // collection computes the ids present while paging.
@@ -179,77 +221,218 @@ func (sc scenario) collection() []string {
 	return out
 }
 
+// runOp executes one store op on the real model and canonicalises its outcome.
+func runOp(inst *instance, op storeOp) (out string, got string) {
+	var err error
+	unsupported := false
+	p, msg := lib.Catch(func() {
+		switch op.Kind {
+		case "add":
+			if inst.add == nil {
+				unsupported = true
+				return
+			}
+			got, err = inst.add(op.ID)
+		case "ensure":
+			if inst.ensure == nil {
+				unsupported = true
+				return
+			}
+			inst.ensure(op.ID, op.Alt)
+			got = op.ID
+		case "update":
+			if inst.update == nil {
+				unsupported = true
+				return
+			}
+			err = inst.update(op.ID, op.Alt)
+			got = op.ID
+		case "delete":
+			err = inst.del(op.ID)
+			got = op.ID
+		default:
+			unsupported = true
+		}
+	})
+	switch {
+	case unsupported:
+		return "unsupported", ""
+	case p && op.Kind == "ensure" && op.ID == "":
+		return "rejected", "" // the empty name is refused (validateChild panics by contract)
+	case p:
+		return "panic:" + msg, ""
+	case err == nil:
+		return "ok " + hexID(got), got
+	}
+	switch codeName(err) {
+	case "AlreadyExists":
+		return "exists", ""
+	case "NotFound":
+		return "notfound", ""
+	case "Aborted":
+		return "aborted", ""
+	}
+	return "err " + codeName(err), ""
+}
+
 // run executes the scenario on the real code.
-func (sc scenario) run() (calls []call, full []string, err error) {
+func (sc scenario) run() (res runResult, err error) {
 	r, ok := rpcByName(sc.RPC)
 	if !ok {
-		return nil, nil, fmt.Errorf("unknown rpc %q", sc.RPC)
+		return res, fmt.Errorf("unknown rpc %q", sc.RPC)
 	}
 	var inst *instance
 	panicked, msg := lib.Catch(func() { inst, err = r.build(sc.IDs) })
 	if panicked {
-		return nil, nil, fmt.Errorf("building the collection panicked: %s", msg)
+		return res, fmt.Errorf("building the collection panicked: %s", msg)
 	}
 	if err != nil {
-		return nil, nil, err
+		return res, err
 	}
 	for _, d := range sc.Delete {
 		if e := inst.del(d); e != nil {
-			return nil, nil, fmt.Errorf("delete %q: %v", d, e)
+			return res, fmt.Errorf("delete %q: %v", d, e)
 		}
 	}
-	full = inst.all()
+	res.base = sc.collection()
+	// the harness's own set oracle (insertion order)
+	present := append([]string(nil), res.base...)
+	has := func(id string) bool {
+		for _, x := range present {
+			if x == id {
+				return true
+			}
+		}
+		return false
+	}
+	for _, op := range sc.Ops {
+		out, got := runOp(inst, op)
+		if out == "unsupported" {
+			return res, fmt.Errorf("%s has no %q operation", sc.RPC, op.Kind)
+		}
+		res.ops = append(res.ops, out)
+		res.gen = append(res.gen, got)
+		switch op.Kind {
+		case "add":
+			id := op.ID
+			if id == "" {
+				id = got // invented by the model; "" when it failed
+				if id == "" {
+					continue
+				}
+			}
+			if !has(id) {
+				present = append(present, id)
+			}
+		case "ensure":
+			if op.ID != "" && !has(op.ID) {
+				present = append(present, op.ID)
+			}
+		case "delete":
+			for i, x := range present {
+				if x == op.ID {
+					present = append(present[:i:i], present[i+1:]...)
+					break
+				}
+			}
+		}
+	}
+	res.coll = present
+	res.full = inst.all()
 	idx := map[string]int{}
 	if r.Variant == "waste" {
-		for i, id := range sc.IDs {
+		for i, id := range present {
 			idx[id] = i
 		}
 	}
-	budget := len(full) + 3
-	tok := sc.Token
-	for i := 0; i < budget; i++ {
-		size := sc.Sizes[i%len(sc.Sizes)]
-		c := call{Size: size, Token: tok, Tok: tokClass(r.Variant, tok), Hostile: i == 0 && tok != ""}
+	one := func(size int32, tok string, mask []string, hostile bool) (call, bool) {
+		c := call{Size: size, Token: tok, Tok: tokClass(r.Variant, tok), Hostile: hostile, Mask: mask}
 		var resp pageResp
-		p, m := lib.Catch(func() { resp = inst.list(size, tok, sc.Mask) })
+		p, m := lib.Catch(func() { resp = inst.list(size, tok, mask) })
 		if p {
 			c.Panic = m
 			c.Out = "panic"
-			calls = append(calls, c)
-			break
+			return c, false
 		}
 		c.Resp = resp
 		c.Out = canon(r.Variant, idx, resp)
-		calls = append(calls, c)
-		if resp.Err != nil || resp.Next == "" {
-			break
-		}
-		tok = resp.Next
+		return c, true
 	}
-	return calls, full, nil
+	for _, w := range sc.Warm {
+		c, _ := one(w.Size, w.Token, w.Mask, true)
+		res.warm = append(res.warm, c)
+	}
+	passes := sc.Passes
+	if passes < 1 {
+		passes = 1
+	}
+	budget := len(res.full) + 3
+	for p := 0; p < passes; p++ {
+		var calls []call
+		tok := sc.Token
+		for i := 0; i < budget; i++ {
+			c, ok := one(sc.Sizes[i%len(sc.Sizes)], tok, sc.Mask, i == 0 && tok != "")
+			calls = append(calls, c)
+			if !ok || c.Resp.Err != nil || c.Resp.Next == "" {
+				break
+			}
+			tok = c.Resp.Next
+		}
+		res.passes = append(res.passes, calls)
+	}
+	res.fullAfter = inst.all()
+	return res, nil
 }
 
-// driverLines renders the scenario's calls for the Lean model.
-func (sc scenario) driverLines(variant string, calls []call) []string {
-	coll := sc.collection()
-	var lines []string
-	if variant == "waste" {
-		for _, c := range calls {
-			lines = append(lines, fmt.Sprintf("waste %d %d %s", len(coll), c.Size, c.Tok))
+// modelQ is one request to the Lean model with the real code's answer to compare it with ("" = not compared).
+type modelQ struct {
+	Line string
+	Code string
+	Key  string
+	What string
+}
+
+// driverLines renders the scenario for the Lean model: the collection (ids in insertion order: the model
+// sorts), every store op, the listing, and every List call.
+func (sc scenario) driverLines(variant string, res runResult) []modelQ {
+	var qs []modelQ
+	pageLine := func(c call, where string, i int) modelQ {
+		vis := 1
+		if !maskShowsKey(sc.RPC, c.Mask) {
+			vis = 0
 		}
-		return lines
+		key := fmt.Sprintf("%s|%d|%d|%s|%v", sc.RPC, len(res.coll), c.Size, c.Tok, vis)
+		if variant == "waste" {
+			return modelQ{fmt.Sprintf("waste %d %d %s %d", len(res.coll), c.Size, c.Tok, vis), c.Out, key, fmt.Sprintf("%s %d", where, i)}
+		}
+		return modelQ{fmt.Sprintf("page %s %d %s %d", variant, c.Size, c.Tok, vis), c.Out, key, fmt.Sprintf("%s %d", where, i)}
 	}
-	sorted := append([]string(nil), coll...)
-	sort.Strings(sorted)
-	lines = append(lines, "keys "+hexList(sorted))
-	vis := 1
-	if !sc.keyVisible() {
-		vis = 0
+	if variant != "waste" {
+		qs = append(qs, modelQ{Line: "keys " + hexList(res.base)})
+		for i, op := range sc.Ops {
+			line := "sop " + op.Kind + " " + hexID(op.ID)
+			if op.Kind == "add" {
+				line += " " + hexID(res.gen[i])
+			}
+			qs = append(qs, modelQ{line, res.ops[i], fmt.Sprintf("%s|op|%s|%v|%v|%s", sc.RPC, op.Kind, op.ID == "", op.Alt, strings.SplitN(res.ops[i], " ", 2)[0]), fmt.Sprintf("op %d", i)})
+		}
+		// Collection.List: the ids of the map, sorted
+		qs = append(qs, modelQ{"listing", hexList(res.full), fmt.Sprintf("%s|listing|%d", sc.RPC, len(res.full)), "listing"})
 	}
-	for _, c := range calls {
-		lines = append(lines, fmt.Sprintf("page %s %d %s %d", variant, c.Size, c.Tok, vis))
+	for i, c := range res.warm {
+		qs = append(qs, pageLine(c, "warm-up call", i))
 	}
-	return lines
+	for p, calls := range res.passes {
+		for i, c := range calls {
+			qs = append(qs, pageLine(c, fmt.Sprintf("pass %d call", p), i))
+		}
+	}
+	return qs
+}
+
+func maskShowsKey(rpcName string, mask []string) bool {
+	r, _ := rpcByName(rpcName)
+	return mask == nil || maskHas(mask, r.Key)
 }
 
 func capSize(s int32) int {
@@ -264,8 +447,9 @@ func capSize(s int32) int {
 
 // monitor evaluates the property's statement on the observed calls with an oracle that does not use
 // the Lean model: sorted ids (bytewise) / reversed insertion order, filtered by the decoded token.
-func (sc scenario) monitor(m *lib.Monitor, variant string, calls []call, full []string) {
-	coll := sc.collection()
+func (sc scenario) monitor(m *lib.Monitor, variant string, res runResult) {
+	coll := res.coll
+	full := res.full
 	var want []string // the listing in its order
 	if variant == "waste" {
 		for i := len(coll) - 1; i >= 0; i-- {
@@ -276,15 +460,47 @@ func (sc scenario) monitor(m *lib.Monitor, variant string, calls []call, full []
 		sort.Strings(want)
 	}
 	pre := "C15/" + sc.RPC + "/"
-	if strings.Join(full, "\x00") != strings.Join(want, "\x00") || len(full) != len(want) {
-		m.Violate(pre+"full-list", "the model's unpaged listing is not the collection in listing order", sc, fmt.Sprint(len(want), " items in order"), fmt.Sprint(full))
-		return
-	}
-	for _, k := range want {
-		if k == "" {
-			m.Violate(pre+"empty-key", "an item with an empty key is listed", sc, "no empty keys", "empty key present")
+	for i, o := range res.ops {
+		if strings.HasPrefix(o, "panic:") {
+			m.Violate(pre+"op/"+sc.Ops[i].Kind+"/panic", "a creation / update / deletion API of the model panicked", sc, "a result or an error", o)
 			return
 		}
+	}
+	for _, k := range full {
+		if k == "" {
+			m.Violate(pre+"empty-key", "the public API of the model produced a collection that lists an item with an empty key (a page ending on it mints a token that restarts the listing: endless token chain)", sc, fmt.Sprintf("%q", want), fmt.Sprintf("%q", full))
+			return
+		}
+	}
+	if strings.Join(full, "\x00") != strings.Join(want, "\x00") || len(full) != len(want) {
+		m.Violate(pre+"full-list", "the model's unpaged listing is not the collection in listing order", sc, fmt.Sprintf("%q", want), fmt.Sprintf("%q", full))
+		return
+	}
+	for i, c := range res.warm {
+		if c.Out == "panic" {
+			m.Violate(pre+"panic", "a List call panicked", sc, "a response or an error status", fmt.Sprintf("warm-up call %d: panic: %s", i, c.Panic))
+			return
+		}
+	}
+	for p, calls := range res.passes {
+		if !sc.monitorPass(m, variant, want, p, calls) {
+			return
+		}
+	}
+	if strings.Join(res.fullAfter, "\x00") != strings.Join(full, "\x00") || len(res.fullAfter) != len(full) {
+		m.Violate(pre+"listing-changed", "List calls changed the model's listing (contents were held fixed)", sc, fmt.Sprintf("%q", full), fmt.Sprintf("%q", res.fullAfter))
+	}
+}
+
+// monitorPass evaluates one paging pass; false = a violation was recorded.
+func (sc scenario) monitorPass(m *lib.Monitor, variant string, want []string, pass int, calls []call) bool {
+	pre := "C15/" + sc.RPC + "/"
+	viol := func(sig, what string, input any, exp, obs string) bool {
+		if pass > 0 {
+			what += fmt.Sprintf(" (pass %d over the same, unmodified model)", pass+1)
+		}
+		m.Violate(sig, what, input, exp, obs)
+		return false
 	}
 	// what the starting token asks for
 	remaining := want
@@ -321,32 +537,28 @@ func (sc scenario) monitor(m *lib.Monitor, variant string, calls []call, full []
 			} else if c.Hostile {
 				cls = "panic/token"
 			}
-			m.Violate(pre+cls, "the List call panicked", sc, "a response or an error status", "panic: "+c.Panic)
-			return
+			return viol(pre+cls, "the List call panicked", sc, "a response or an error status", "panic: "+c.Panic)
 		}
 		if c.Size < 0 {
 			if c.Resp.Err == nil {
-				m.Violate(pre+"negative-size/no-error", "a negative page size was answered without an error status", sc, "error status", c.Out)
+				return viol(pre+"negative-size/no-error", "a negative page size was answered without an error status", sc, "error status", c.Out)
 			}
-			return
+			return true
 		}
 		if i == 0 && expectTokenError {
 			if c.Resp.Err == nil {
-				m.Violate(pre+"bad-token/no-error", "a malformed page token was answered without an error status", sc, "error status", c.Out)
+				return viol(pre+"bad-token/no-error", "a malformed page token was answered without an error status", sc, "error status", c.Out)
 			}
-			return
+			return true
 		}
 		if c.Resp.Err != nil {
-			m.Violate(pre+"unexpected-error", "a well-formed List call failed", sc, "OK", c.Out)
-			return
+			return viol(pre+"unexpected-error", "a well-formed List call failed", sc, "OK", c.Out)
 		}
 		if len(c.Resp.Keys) > capSize(c.Size) {
-			m.Violate(pre+"page-too-large", "a page is larger than requested (default 50, cap 1000)", sc, fmt.Sprint("<= ", capSize(c.Size)), fmt.Sprint(len(c.Resp.Keys)))
-			return
+			return viol(pre+"page-too-large", "a page is larger than requested (default 50, cap 1000)", sc, fmt.Sprint("<= ", capSize(c.Size)), fmt.Sprint(len(c.Resp.Keys)))
 		}
 		if int(c.Resp.Total) != len(want) {
-			m.Violate(pre+"total-size", "total_size is not the number of items", sc, fmt.Sprint(len(want)), fmt.Sprint(c.Resp.Total))
-			return
+			return viol(pre+"total-size", "total_size is not the number of items", sc, fmt.Sprint(len(want)), fmt.Sprint(c.Resp.Total))
 		}
 		switch {
 		case sc.keyVisible():
@@ -363,23 +575,22 @@ func (sc scenario) monitor(m *lib.Monitor, variant string, calls []call, full []
 		}
 	}
 	if !ended {
-		m.Violate(pre+"endless-chain", "the token chain did not reach the empty token within |items|+1 pages", sc, fmt.Sprint("<= ", len(remaining)+1, " pages"), fmt.Sprint(len(calls), " pages and still a token"))
-		return
+		return viol(pre+"endless-chain", "the token chain did not reach the empty token within |items|+1 pages", sc, fmt.Sprint("<= ", len(remaining)+1, " pages"), fmt.Sprint(len(calls), " pages and still a token"))
 	}
 	if len(calls) > len(remaining)+1 {
-		m.Violate(pre+"endless-chain", "the token chain took more than |items|+1 pages", sc, fmt.Sprint("<= ", len(remaining)+1, " pages"), fmt.Sprint(len(calls), " pages"))
-		return
+		return viol(pre+"endless-chain", "the token chain took more than |items|+1 pages", sc, fmt.Sprint("<= ", len(remaining)+1, " pages"), fmt.Sprint(len(calls), " pages"))
 	}
 	if !sc.keyVisible() && !sc.witVisible() {
 		// items cannot be told apart under this read mask: the count must still be right
 		if len(got) != len(remaining) {
-			m.Violate(pre+"enumerate/count", "the pages do not hold as many items as the listing", sc, fmt.Sprint(len(remaining)), fmt.Sprint(len(got)))
+			return viol(pre+"enumerate/count", "the pages do not hold as many items as the listing", sc, fmt.Sprint(len(remaining)), fmt.Sprint(len(got)))
 		}
-		return
+		return true
 	}
 	if strings.Join(got, "\x00") != strings.Join(remaining, "\x00") || len(got) != len(remaining) {
-		m.Violate(pre+"enumerate/concat", "the concatenated pages are not the listing (every item exactly once, in order)", sc, fmt.Sprint(remaining), fmt.Sprint(got))
+		return viol(pre+"enumerate/concat", "the concatenated pages are not the listing (every item exactly once, in order)", sc, fmt.Sprint(remaining), fmt.Sprint(got))
 	}
+	return true
 }
 
 func (sc scenario) summary() map[string]any {
@@ -387,5 +598,15 @@ func (sc scenario) summary() map[string]any {
 	if len(ids) > 8 {
 		ids = append(append([]string(nil), ids[:6]...), fmt.Sprintf("…(%d ids)", len(sc.IDs)))
 	}
-	return map[string]any{"rpc": sc.RPC, "ids": ids, "delete": sc.Delete, "sizes": sc.Sizes, "token": sc.Token, "mask": sc.Mask, "class": sc.Class}
+	out := map[string]any{"rpc": sc.RPC, "ids": ids, "delete": sc.Delete, "sizes": sc.Sizes, "token": sc.Token, "mask": sc.Mask, "class": sc.Class}
+	if len(sc.Ops) > 0 {
+		out["ops"] = sc.Ops
+	}
+	if len(sc.Warm) > 0 {
+		out["warm"] = sc.Warm
+	}
+	if sc.Passes > 1 {
+		out["passes"] = sc.Passes
+	}
+	return out
 }
